@@ -155,7 +155,7 @@ def classify(kind, q, msgs):
     """D15: refine_center_upsampling maximises the modulus of the half-spectrum (rfft) sum; for templates whose
     cross-spectrum with the disk has negative components (small RadialGradientBackgroundSubtraction patterns) that
     modulus peaks off the true centre although the correlation itself (full spectrum) peaks on it."""
-    if q["pattern"]["kind"] != "rgbs" or q["pattern"]["radius"] > 3.0:
+    if q["pattern"]["kind"] != "rgbs":
         return None
     if not all("upsample=" in m and "upsample=False" not in m and "refined" in m for m in msgs):
         return None
